@@ -14,8 +14,8 @@ def _uuc_new(c, A, R):
 
 s = contract(U + "update_uid_counter", [("H", "net:H"), ("idx", "val")])
 s.variants = [{"H": "net:H"}, {"H": "net:DH"}]
-s.ens("uid'", ("C04",), _uuc_new)
+s.ens("uid'", ("C01", "C02", "C03", "C04"), _uuc_new)
 s.ens_all("only-counter", ("C01", "C02", "C03", "C04", "C05"), lambda c, A, R: z3.And(
     same_tables(c, A.snap0["H"], R.snap["H"]), A.snap0["H"].neth == R.snap["H"].neth, A.snap0["H"].netv == R.snap["H"].netv))
-s.ens_all("counter-monotone", ("C04",), lambda c, A, R: R.snap["H"].uid >= A.snap0["H"].uid)
+s.ens_all("counter-monotone", ("C01", "C02", "C03", "C04"), lambda c, A, R: R.snap["H"].uid >= A.snap0["H"].uid)
 s.modifies = ["H"]
